@@ -18,6 +18,10 @@ trait Val: CellType + std::fmt::Debug + std::fmt::Display {
 impl Val for Data {
     fn make(k: u64) -> Self {
         match k % 6 {
+            // values that are not the default (Empty) although they look empty
+            0 if k % 5 == 0 => Data::Int(0),
+            1 if k % 5 == 1 => Data::Float(0.0),
+            2 if k % 4 == 2 => Data::String(String::new()),
             0 => Data::Int(k as i64 + 1),
             1 => Data::Float(k as f64 + 0.5),
             2 => Data::String(format!("s{}", k)),
